@@ -386,6 +386,37 @@ def main():
         unknown.sort(key=lambda f: (0 if f.get("kind", "violation") == "violation" else 1,
                                     1 if f.get("standalone") in ("unverified", "not-reproduced") else 0,
                                     len(json.dumps(f.get("input", ""), default=str))))
+        if getattr(mod, "CLEANROOM", False):
+            # the replay file must reproduce STAND-ALONE (in a new process).  A failing input
+            # found late in a long run may owe its failure to state that earlier cases left in a
+            # changed library (a cache, a shared object): each candidate is replayed in a clean
+            # room; the first that fails there is reported, refuted ones are demoted
+            refuted = confirmed = 0
+            for f in unknown:
+                f.pop("reproduces_alone", None)     # a corpus record may carry the flag of its own run
+            try:
+                with C.CleanRoom("props." + pid.lower()) as room:
+                    # order of trial: the five shortest plain inputs, then the inputs that carry
+                    # their own history, then the rest
+                    plain = [f for f in unknown if not f.get("carries_history")]
+                    for f in plain[:5] + [f for f in unknown if f.get("carries_history")] + plain[5:]:
+                        if f.get("kind", "violation") != "violation" or refuted >= 40:
+                            continue
+                        if room.replay(f).get("fails"):
+                            f["reproduces_alone"] = True
+                            confirmed = 1
+                            break
+                        refuted += 1
+                        f["kind"] = "not-reproducible-alone"
+                        f["note"] = ("fails inside the run (after other cases in the same process) "
+                                     "but not when replayed alone in a new process")
+            except Exception:
+                C.eprint(traceback.format_exc())
+            ctx.notes.append("clean-room confirmation of the reported input: {} refuted, {} "
+                             "confirmed".format(refuted, confirmed))
+            unknown.sort(key=lambda f: (0 if f.get("reproduces_alone") else 1,
+                                        0 if f.get("kind", "violation") == "violation" else 1,
+                                        len(json.dumps(f.get("input", ""), default=str))))
         f = unknown[0]
         genuine = f.get("kind", "violation") == "violation"
         payload = {"property": pid, "seed": seed, "tier": a.tier, "failure": f,
